@@ -529,4 +529,64 @@ theorem explicitM_enc (stp : Point) (prevH : Bool) (sps : List SubPath) (h : okF
         simp only [List.cons_append, explicitM, g1, g2, g3, Bool.and_self, Bool.false_eq_true, if_false, if_true]
         rw [ex_tail, ih _ _ h2]
 
+/-! ### paint_path on the implementation's encoding of the specification's path -/
+
+theorem many_subpaths (g : SGState) (st fi eo : Bool) (L : List SubPath) :
+    ((((L.map flat1).filter (fun l => l.length > 1)).flatMap
+        (paintSingle g.ctm (argsOf g st fi eo))).filter hasSeg).map eraseRectPts =
+      (L.filterMap (shapeOf g st fi eo)).map eraseRectPts := by
+  induction L with
+  | nil => rfl
+  | cons sp rest ih =>
+    have hps := per_subpath g st fi eo sp
+    have hfm : (sp :: rest).filterMap (shapeOf g st fi eo) =
+        (shapeOf g st fi eo sp).toList ++ rest.filterMap (shapeOf g st fi eo) := by
+      cases h : shapeOf g st fi eo sp <;> simp [List.filterMap_cons, h]
+    rw [hfm, List.map_append, ← ih, ← hps]
+    by_cases hl : (flat1 sp).length > 1
+    · simp [List.filter_cons, hl, List.flatMap_cons, List.filter_append]
+    · -- `m` alone: dropped by the regular expression, and without a segment anyway
+      have hseg : sp.segs = [] := by
+        obtain ⟨s, segs, c, imp⟩ := sp
+        cases segs with
+        | nil => rfl
+        | cons _ _ => simp [flat1] at hl
+      have : (paintSingle g.ctm (argsOf g st fi eo) (flat1 sp)).filter hasSeg = [] := by
+        rw [filter_hasSeg, flat1_any]; simp [hseg]
+      simp [List.filter_cons, hl, this]
+
+theorem paintPath_enc (g : SGState) (st fi eo : Bool) (sps : List SubPath) (stp : Point)
+    (hok : okFrom stp false sps) :
+    ((paintPath g.ctm (argsOf g st fi eo) (enc sps)).filter hasSeg).map eraseRectPts =
+      (sps.filterMap (shapeOf g st fi eo)).map eraseRectPts := by
+  cases sps with
+  | nil => rfl
+  | cons sp rest =>
+    have himp : sp.implicit = false := by
+      cases h : sp.implicit
+      · rfl
+      · have := (hok.1 h).1; cases this
+    have he : enc (sp :: rest) = PSeg.m sp.start :: (tail1 sp ++ enc rest) := by
+      simp [enc, enc1, himp]
+    have hok' : okFrom sp.start false (sp :: rest) := ⟨by simp [himp], hok.2⟩
+    have hx := explicitM_enc sp.start false (sp :: rest) hok'
+    rw [he] at hx ⊢
+    simp only [paintPath, hx]
+    split
+    · rw [splitM_flat]
+      exact many_subpaths g st fi eo (sp :: rest)
+    · rename_i hc
+      rw [countM_flat] at hc
+      have hr : rest = [] := by
+        cases rest with
+        | nil => rfl
+        | cons _ _ => simp at hc
+      subst hr
+      have : flat [sp] = flat1 sp := by simp [flat]
+      rw [this]
+      have hfm : [sp].filterMap (shapeOf g st fi eo) = (shapeOf g st fi eo sp).toList := by
+        cases h : shapeOf g st fi eo sp <;> simp [List.filterMap_cons, h]
+      rw [hfm]
+      exact per_subpath g st fi eo sp
+
 end PdfVerif.PathLemmas
